@@ -27,6 +27,7 @@ def run(ctx: Ctx) -> None:
     from ..rules import memo as _memo
     _memo.rule_memo_sound(ctx, ['graphiq/solvers/evolutionary_solver.py', 'graphiq/solvers/hybrid_solvers.py'])
     _memo.rule_falsy_zero(ctx, ['graphiq/solvers/evolutionary_solver.py', 'graphiq/solvers/hybrid_solvers.py'])
+    _memo.rule_arg_names(ctx, ['graphiq/solvers/evolutionary_solver.py', 'graphiq/solvers/hybrid_solvers.py'])
     solvers.rule_twoqubit(ctx)
     solvers.rule_move_filters(ctx)
     solvers.rule_frontinsert(ctx)
